@@ -97,7 +97,7 @@ func init() {
 			{World: "ilv", Profile: "c05-reconf", Quick: 3000, Thor: 120000, PerProc: 250},
 			{World: "gw", Profile: "c05h-exits", Quick: 120, Thor: 6000, PerProc: 1},
 		},
-		Rule: "each run = drawn workload (2-4 request threads doing GetOrDefault/TryAcquire/Release exactly like the dispatcher, one configuration thread issuing Sync with resizes, type changes, delete/re-add; bystander schema and cluster) under one drawn statement-level schedule; distinct = distinct trace hash; non-trivial = operations overlapped AND at least one request was refused (the bound was reached). Profile c05h-exits (gw world): real HTTP requests under a max-in-flight policy ending as upstream success, upstream 5xx, reset, truncated body (reverse-proxy abort path), no ready endpoint, client abort while the stub holds the response, interleaved with resizes and bystander schema/cluster traffic; after draining exactly M concurrent probes must be forwarded and the M+1-th get 429",
+		Rule: "each run = drawn workload (2-4 request threads doing GetOrDefault/TryAcquire/Release exactly like the dispatcher, one configuration thread issuing Sync with resizes, type changes, delete/re-add; bystander schema and cluster) under one drawn statement-level schedule; distinct = distinct trace hash; non-trivial = operations overlapped AND at least one request was refused (the bound was reached). Profile c05h-exits (gw world): real HTTP requests under a max-in-flight policy ending as upstream success, upstream 5xx, reset, truncated body (reverse-proxy abort path), no ready endpoint, client abort while the stub holds the response, interleaved with resizes and bystander schema/cluster traffic; after draining exactly M concurrent probes must be forwarded and the M+1-th get 429. The schema starts as a max-in-flight schema or (reconf profile, one run in three) as a token-bucket, exempt or absent one that becomes max-in-flight later; an acquire that panics inside the limiter (answered 500 by the panic filter) is a separate outcome that neither admits nor refuses",
 		Real: []string{"pkg/flowcontrols (UpstreamLimiter, syncLocalFlowControls), pkg/flowcontrols/remote (FlowControlCache, localWrapper, meterWrapper), pkg/flowcontrols/flowcontrol, github.com/zoumo/golib/lock/maxinflight atomicTokenBucket — all yield-instrumented copies of the current tree", "pkg/flowcontrols/util Meter (background statistics goroutines, uninstrumented, real time)"},
 		Stub: []string{"request/configuration threads, the cooperative scheduler"},
 		Assume: []string{
@@ -204,7 +204,7 @@ func init() {
 		Batches: []Batch{
 			{World: "gw", Profile: "c15-removal", Quick: 150, Thor: 8000, PerProc: 1, FaultFree: true},
 		},
-		Rule: "each run = cluster alpha (endpoints e0,e1 behind verb-distinguished policies) and bystander cluster beta; 6-12 requests in drawn phases of their life (parked in TokenReview before the pick, held at the upstream before headers, mid-stream of a chunked long-running response with drawn progress), then one drawn removal (delete the cluster, remove e0, replace e0 by a new endpoint); afterwards: victims must end at the client within 2 simulated seconds without further stimulus, the removed endpoint's server must see the cancellation, new requests get 503 / never reach the removed endpoint, bystander streams receive their next chunk, probing of the removed endpoint stops and of the others continues; distinct = distinct trace hash; non-trivial = at least one request was in flight to what was removed",
+		Rule: "each run = cluster alpha (endpoints e0,e1 behind verb-distinguished policies) and bystander cluster beta; 6-12 requests in drawn phases of their life (parked in TokenReview before the pick, held at the upstream before headers, mid-stream of a chunked long-running response with drawn progress), then one drawn removal (delete the cluster, remove e0, replace e0 by a new endpoint); afterwards: victims must end at the client within 2 simulated seconds without further stimulus, the removed endpoint's server must see the cancellation, new requests get 503 / never reach the removed endpoint, bystander streams receive their next chunk, probing of the removed endpoint stops and of the others continues; distinct = distinct trace hash; non-trivial = at least one request was in flight to what was removed. Before the requests are sent alpha goes through 0-2 earlier versions in which one of its endpoints is disabled and enabled again (so that endpoints about to be removed have been through the update path, not only the create path)",
 		Real: gwReal, Stub: gwStub, Assume: append([]string{"'promptly' is read as 2 simulated seconds; 'probing stops' as no probe later than one interval (5 s) plus 1.5 s after the removal"}, gwAssume...),
 	})
 	reg(&Check{
@@ -214,7 +214,7 @@ func init() {
 			{World: "gw", Profile: "c12-hosts", Quick: 120, Thor: 6000, PerProc: 1},
 			{World: "gw", Profile: "c12-alias", Quick: 80, Thor: 4000, PerProc: 1},
 		},
-		Rule: "each run = 2-3 clusters whose stubs map the same tokens to different users and answer the same impersonation SAR differently, drawn cache TTLs (0 / 2 s / default), 15-55 steps of: request to a drawn host (names in mixed case, aliases) with a drawn token and optional impersonation, time gaps around the TTLs (0.5 s - 11 min), changes of a cluster's own answers (token remapped/revoked, SAR flipped), a cluster made unreachable and back, delete and re-create; profile c12-alias also moves a server name from one live cluster to another; the oracle attributes every forwarded identity and every review to the cluster the host resolves to; distinct = distinct trace hash; non-trivial = at least two forwarded requests with two or more clusters",
+		Rule: "each run = 2-3 clusters whose stubs map the same tokens to different users and answer the same impersonation SAR differently, drawn cache TTLs (0 / 2 s / default), 15-55 steps of: request to a drawn host (names in mixed case, aliases) with a drawn token and optional impersonation, time gaps around the TTLs (0.5 s - 11 min), changes of a cluster's own answers (token remapped/revoked, SAR flipped), a cluster made unreachable and back, delete and re-create; profile c12-alias also moves a server name from one live cluster to another; the oracle attributes every forwarded identity and every review to the cluster the host resolves to; distinct = distinct trace hash; non-trivial = at least two forwarded requests with two or more clusters. One token names the same user in every cluster; in 'twin' steps that user sends the identical impersonation request to two clusters at the same time while the first cluster's SubjectAccessReview is held at a sim point",
 		Real: gwReal, Stub: gwStub, Assume: append([]string{"a cached answer may be as old as the longest configured TTL plus 50 ms", "the alias-move profile goes beyond the literal quantifier (hosts are fixed there) but not beyond the statement"}, gwAssume...),
 	})
 	reg(&Check{
@@ -223,7 +223,7 @@ func init() {
 		Batches: []Batch{
 			{World: "gw", Profile: "c11-history", Quick: 200, Thor: 10000, PerProc: 1},
 		},
-		Rule: "each run = 1-3 clusters, 6-40 steps of: a new object version mutating one hot-reloadable section (servers/disabled, policies incl. subsets, schema references and log modes, flow-control schemas incl. type/strategy/size, feature-gate annotation added/changed/gate removed/annotation removed/annotations nil, logging, serving certificate and client CA, server names from a colliding pool) through the real admission plugin, admission lister or controller informer held back and released (watch_delay: name conflicts reach the controller and are requeued), time advancing across the 5 s requeues, delete and re-create; at final quiescence a fresh twin gateway is built in the same bubble from the latest objects only and compared per cluster through public accessors and routing probes; distinct = distinct trace hash; non-trivial = at least 3 versions applied",
+		Rule: "each run = 1-3 clusters, 6-40 steps of: a new object version mutating one hot-reloadable section (servers/disabled, policies incl. subsets, schema references and log modes, flow-control schemas incl. type/strategy/size, feature-gate annotation added/changed/gate removed/annotation removed/annotations nil, logging, serving certificate and client CA, server names from a colliding pool) through the real admission plugin, admission lister or controller informer held back and released (watch_delay: name conflicts reach the controller and are requeued), time advancing across the 5 s requeues, delete and re-create; at final quiescence a fresh twin gateway is built in the same bubble from the latest objects only and compared per cluster through public accessors and routing probes; distinct = distinct trace hash; non-trivial = at least 3 versions applied. One mutation in four takes one aspect back to the value it had before its last change (A -> B -> A histories per aspect)",
 		Real: gwReal, Stub: gwStub, Assume: append([]string{"client connection settings are excluded (fixed at creation, as the statement says)", "runs whose final objects claim one name twice are not compared (which cluster serves it is C10's business)"}, gwAssume...),
 	})
 	reg(&Check{
@@ -250,9 +250,9 @@ func init() {
 		Batches: []Batch{
 			{World: "rlstub", Profile: "c09-byzantine", Quick: 250, Thor: 15000, PerProc: 1},
 		},
-		Rule: "each run = one gateway instance's real limiter stack (clientsets with heartbeat/readiness hysteresis, UpstreamLimiter, reconcile loop, global counter manager, wrappers, meters) for one cluster with 1-2 schemas (max-in-flight or token bucket x allocate or count strategy, local <= global), 20-120 steps of request bursts with drawn hold times, clock advances (50 ms - 6 s), server readiness flaps, leader unknown, partitions, against a scripted server that answers allocate/acquire with arbitrary int32 quotas and bursts (0, negative, > configured, MaxInt32), accept/reject, error strings and failures; then faults stop, the server answers an honest quota and the bounded-liveness clause is checked; distinct = distinct trace hash; non-trivial = requests were admitted through the server-controlled limiter and also refused or admitted locally",
-		Real: []string{"pkg/ratelimiter/clientsets (server-info sync, heartbeats, readiness hysteresis, client cache) over the simulated network", "pkg/flowcontrols UpstreamLimiter.Load/Sync/ResetLimiter", "pkg/flowcontrols/remote (reconcile loop, FlowControlCache, remote/local wrappers, global counter manager, maxInflight/tokenBucket wrappers, meters)", "client-go REST client encoding/decoding"},
-		Stub: []string{"the limiter server (byzantine script: the property quantifies over whatever the server answers)", "request threads (GetOrDefault/TryAcquire/hold/Release as the dispatcher does)", "network (simnet round tripper with partitions), fake clock"},
+		Rule:   "each run = one gateway instance's real limiter stack (clientsets with heartbeat/readiness hysteresis, UpstreamLimiter, reconcile loop, global counter manager, wrappers, meters) for one cluster with 1-2 schemas (max-in-flight or token bucket x allocate or count strategy, local <= global), 20-120 steps of request bursts with drawn hold times, clock advances (50 ms - 6 s), server readiness flaps, leader unknown, partitions, against a scripted server that answers allocate/acquire with arbitrary int32 quotas and bursts (0, negative, > configured, MaxInt32), accept/reject, error strings and failures; then faults stop, the server answers an honest quota and the bounded-liveness clause is checked; distinct = distinct trace hash; non-trivial = requests were admitted through the server-controlled limiter and also refused or admitted locally. Max-in-flight schemas are reconfigured during the run (new local/global limits; after a lowering the previous limit is tolerated until the gateway has received one allocate answer) and the server may turn stale (repeats its previous answer per schema)",
+		Real:   []string{"pkg/ratelimiter/clientsets (server-info sync, heartbeats, readiness hysteresis, client cache) over the simulated network", "pkg/flowcontrols UpstreamLimiter.Load/Sync/ResetLimiter", "pkg/flowcontrols/remote (reconcile loop, FlowControlCache, remote/local wrappers, global counter manager, maxInflight/tokenBucket wrappers, meters)", "client-go REST client encoding/decoding"},
+		Stub:   []string{"the limiter server (byzantine script: the property quantifies over whatever the server answers)", "request threads (GetOrDefault/TryAcquire/hold/Release as the dispatcher does)", "network (simnet round tripper with partitions), fake clock"},
 		Assume: []string{"admissions are attributed to the limiter object that made them (remote vs local wrapper) through the public AllFlowControls() accessors", "token-bucket bound per limiter object allows one fresh burst per reconcile period (a new quota swaps in a new bucket)", "the server's coin is a pre-drawn sub-stream of the tape consumed in RPC arrival order", "a clean batch is evidence, not proof"},
 	})
 	reg(&Check{
@@ -260,9 +260,11 @@ func init() {
 		Title: "Global allocation: quotas never exceed the global limit and are never < 1",
 		Batches: []Batch{
 			{World: "rl", Profile: "c07-sequences", Quick: 200, Thor: 10000, PerProc: 1, FaultFree: true},
+			{World: "rl", Profile: "c07o-overlap", Quick: 150, Thor: 8000, PerProc: 1, FaultFree: true},
 		},
-		Rule: "each run = 1-2 replicas with real lease election, 1-3 shards, 1-2 upstreams with a max-in-flight and optionally a token-bucket schema (global limits 1 ... 100000), 2-6+ honest instances (each echoes exactly the quota it was last answered, reports used >= 0 and RequestLevel = floor(100*used/current)), 20-80 steps of reports, limit changes through the real upstream controller (raise, lower below the allocated sum), clock advances, instances leaving and joining; after every answered report the quotas the leader has on record are read back through its exposed API; distinct = distinct trace hash; non-trivial = at least 5 answered reports from 2+ instances",
-		Real: rlReal, Stub: rlStub, Assume: append([]string{"'honest' = echoes the last answered quota, used >= 0, RequestLevel = floor(100*used/current); an instance whose record was reclaimed still echoes its last quota"}, rlAssume...),
+		Rule:     "each run = 1-2 replicas with real lease election, 1-3 shards, 1-2 upstreams with a max-in-flight and optionally a token-bucket schema (global limits 1 ... 100000), 2-6+ honest instances (each echoes exactly the quota it was last answered, reports used >= 0 and RequestLevel = floor(100*used/current)), 20-80 steps of reports, limit changes through the real upstream controller (raise, lower below the allocated sum), clock advances, instances leaving and joining; after every answered report the quotas the leader has on record are read back through its exposed API; distinct = distinct trace hash; non-trivial = at least 5 answered reports from 2+ instances. Profile c07o-overlap: one leading replica (store local or API-backed), 2-4 instances, 3-12 rounds in each of which 1-3 honest reports run as sim threads through the yield-instrumented UpdateRateLimitConditionStatus under a drawn statement-level schedule; the over-commit clause is evaluated with the recorded sum at the start of the round",
+		NeedInst: []string{"pkg/ratelimiter/limiter/ratelimter.go"},
+		Real:     rlReal, Stub: rlStub, Assume: append([]string{"'honest' = echoes the last answered quota, used >= 0, RequestLevel = floor(100*used/current); an instance whose record was reclaimed still echoes its last quota"}, rlAssume...),
 	})
 	reg(&Check{
 		ID:    "C13",
@@ -280,7 +282,7 @@ func init() {
 		Batches: []Batch{
 			{World: "rl", Profile: "c18-lifecycle", Quick: 200, Thor: 10000, PerProc: 1},
 		},
-		Rule: "each run = 1-2 replicas (store local / API-backed write-through / periodic), one upstream with an allocate and a count schema, 2-4+ instances with real client sets (heartbeats every second); 25-90 steps of allocate reports, acquire reports, clock advances (1-36 s), instances dying or being cut off, coming back with the old identity or joining anew, a replica cut off from the API server; at every boundary: an instance silent for > 36 s under a stable leader has no condition on record, an instance whose heartbeats arrive at the stable leader with gaps < 3 s keeps its condition; at the end a survivor must be granted the in-flight capacity not held by live instances; distinct = distinct trace hash; non-trivial = both clauses were evaluated",
+		Rule: "each run = 1-2 replicas (store local / API-backed write-through / periodic), one upstream with an allocate and a count schema, 2-4+ instances with real client sets (heartbeats every second); 25-90 steps of allocate reports, acquire reports, clock advances (1-36 s), instances dying or being cut off, coming back with the old identity or joining anew, a replica cut off from the API server; at every boundary: an instance silent for > 36 s under a stable leader has no condition on record, an instance whose heartbeats arrive at the stable leader with gaps < 3 s keeps its condition; at the end a survivor must be granted the in-flight capacity not held by live instances; distinct = distinct trace hash; non-trivial = both clauses were evaluated. One joining instance in three sends its first acquire 50-1200 ms after its start, i.e. possibly before its first heartbeat, and may die at once",
 		Real: rlReal, Stub: rlStub, Assume: append([]string{"'the cleanup period' is read as the longer of the two shipped mechanisms: 3 s heartbeat timeout + 30 s sweep + 2 s", "heartbeat arrival is observed on the simulated network"}, rlAssume...),
 	})
 	reg(&Check{ID: "SMOKE", Title: "debug", Batches: []Batch{{World: "gw", Profile: "smoke", Quick: 1, Thor: 1, PerProc: 1}}})
